@@ -72,6 +72,7 @@ Definition sym_uniform (l : list seg) : option N :=
   match nonempty l with
   | [SFill v _] => Some v
   | [SData (DRep v _)] => Some v
+  | [SData (DLit (v :: r))] => if forallb (N.eqb v) r then Some v else None
   | _ => None
   end.
 Definition sym : sem := mkSem (fun a b => segs_eqb (nonempty a) (nonempty b)) sym_uniform.
